@@ -5,6 +5,7 @@ From Coquelicot Require Import Coquelicot.
 From SpdVerif Require Import Base.Rx Model.Optics Model.Fresnel Gen.Fresnel Gen.Kinematics Proofs.Compose_kinematics
   Proofs.Compose_kinematics_links.
 From SpdVerif Require Import Base.CxPM Model.PMParams Gen.PMIntegrand Model.Hom2 Gen.HomSrc.
+From SpdVerif Require Import Spec.CrystalTypes Gen.Crystals Proofs.Sellmeier.
 Local Open Scope R_scope.
 
 Definition ex_index : R -> vec -> polarization -> R :=
@@ -120,6 +121,16 @@ Qed.
 Lemma kin_hom_nonvacuous : unit_vec ez /\ vz ez <> 0 /\ 0 <= 0.002.
 Proof. destruct ex_unit. repeat split; try assumption; lra. Qed.
 
+(* a frequency whose vacuum wavelength (1.55 um) lies in KTP's window *)
+Definition ex_omega : R := 2 * PI * 1 * 299792458 / (155 / 100000000).
+Lemma ex_omega_lam : lam ex_omega = 155 / 100000000.
+Proof. unfold lam, ex_omega. pose proof PI_RGT_0. field. lra. Qed.
+Lemma kin_builtin_nonvacuous : in_window KTP (lam ex_omega / 1e-6) /\ temp_ok 20 /\ unit_vec ez.
+Proof.
+  rewrite ex_omega_lam. destruct ex_unit as [U _]. repeat split; try exact U; unfold in_window, temp_ok; cbn; lra.
+Qed.
+
+Print Assumptions kin_builtin_nonvacuous.
 Print Assumptions kin_basic_nonvacuous.
 Print Assumptions kin_smooth_nonvacuous.
 Print Assumptions kin_F14_nonvacuous.
